@@ -8,6 +8,7 @@
    `harness codegen-all` (rust output = (all <rv> <x86> <a64>)). *)
 From Coq Require Import List ZArith NArith String Bool.
 From SCC Require Model.X86 Model.X86Io Sem.X86Sem Model.A64 Model.A64Io Sem.A64Sem.
+From SCC Require Import Sem.LabelText.
 From SCC Require Import Base.Sexp Lang.AxSyn Sem.AxSem Model.Backend Model.RV Model.RVIo Sem.RVSem Model.RunBase.
 Import ListNotations.
 Open Scope string_scope.
@@ -220,6 +221,9 @@ Definition wf_rv_case (i r : sexp) : verdict :=
       match g_ritems cs with
       | Some items =>
           let cs := codes_of items in
+          match bad_label (defined_labels cs ++ flat_map referenced cs) with
+          | Some l => VViol ("class=asm-ill-formed-rv label is not an identifier: " ++ l)
+          | None =>
           match asm_wf cs with
           | Some why =>
               match first_dup ("cleanup" :: defined_labels cs), g_prog p with
@@ -241,6 +245,7 @@ Definition wf_rv_case (i r : sexp) : verdict :=
                        ++ tag (has (fun c => match c with SW _ _ _ => true | _ => false end) cs) "mem"
                        ++ " kb" ++ z_to_string (code_bytes cs / 1024) ++ guard_tag p)
               end
+          end
           end
       | None => VBad "rust output unreadable"
       end
